@@ -483,7 +483,7 @@ func c43DrawRoute(t *rapid.T, kind c43Kind, slot c43Slot) (*proto.RouteUpdate, i
 func TestVerifC43RouteManagers(t *testing.T) {
 	ev.Quiet()
 	rec := ev.New("C43", "routemgr",
-		"one of {vxlan v4, vxlan v6, ipip v4, noencap v4, noencap v6} manager per case; histories of RouteUpdate/RouteRemove over 7 destinations (3 blocks, 4 full-length addresses; owner local or one of 3 remote nodes; pool type mostly the manager's, sometimes another; SameSubnet, Borrowed, LocalWorkload, unknown node IP), VTEP / host-metadata updates and removals per node, parent-device changes, CompleteDeferredWork at arbitrary points; non-trivial = a destination's programmed path changed between two checks (re-route direct<->tunnel<->blackhole<->none) after first being programmed; distinct = distinct (kind, op sequence)",
+		"one of {vxlan v4, vxlan v6, ipip v4, noencap v4, noencap v6} manager per case; histories of RouteUpdate/RouteRemove over 7 destinations (3 blocks, 4 full-length addresses; owner local or one of 3 remote nodes; pool type mostly the manager's, sometimes another; SameSubnet, Borrowed, LocalWorkload, unknown node IP), VTEP / host-metadata updates and removals per node, parent-device changes, CompleteDeferredWork at arbitrary points; non-trivial = before the final completion phase at least one direct/tunnel/blackhole decision of the manager's own pool type was verified with all its preconditions present (classes reroute-* and programmed-after-late-info count the order-sensitive sub-cases: a destination's path changed between two checks, or it was programmed only after late node/parent information); distinct = distinct (kind, op sequence)",
 		"RouteUpdate.SameSubnet is the resolver's encoding of 'pool is cross-subnet and the node is in the local subnet' (checked on the calc side of C43)",
 		"parent device detection uses a netlink double in which eth0 carries the local node address")
 	defer rec.Write()
@@ -511,6 +511,11 @@ func TestVerifC43RouteManagers(t *testing.T) {
 			}
 			for c := range cl {
 				classes[c] = true
+			}
+			if !strict && (cl["direct"] || cl["tunnel"] || cl["blackhole"]) {
+				// A path decision was verified on state produced by the generated history itself
+				// (not by the harness's final delivery of missing node information).
+				nontrivial = true
 			}
 			for d, p := range paths {
 				if old, ok := prev[d]; ok && old != p && old != "none" {
